@@ -20,7 +20,7 @@ from harness import logprob_driver as L
 from vlib.core import Check, MachineryError, run_tlc
 
 MC = "INIT Init\nNEXT Next\nINVARIANT DecompositionInv\nINVARIANT SubBags\n"
-TV_CFG = 'CONSTANTS None = "-"\n Apply <- ApplyStr\n Draw <- DrawStr\n FromScratch = TRUE\n'
+TV_CFG = 'CONSTANTS None = "-"\n Apply <- ApplyStr\n Draw <- DrawStr\n FromScratch = TRUE\n ErrVal = "ERR"\n'
 
 
 def run(chk: Check):
